@@ -18,6 +18,10 @@ theorem generated_constants :
     Generated.hAlign = [("LEFT", 0), ("CENTER", 1), ("RIGHT", 2)] ∧
     Generated.vAlign = [("TOP", 0), ("MIDDLE", 1), ("BOTTOM", 2)] ∧
     Generated.defaultPadding = [0, 0, 0, 0] ∧ Generated.dummyFrame = [0, 0, 1, 1] ∧
+    -- relative paddings are resolved against the *active terminal* (`term_image.utils.get_terminal_size`) in
+    -- `RenderIterator.set_padding`/`_from_render_data_` and in `Renderable._init_render_`
+    Generated.terminalSizeSource = [("render._iterator", "term_image.utils"),
+      ("renderable._renderable", "term_image.utils")] ∧
     Generated.defaultLoops ≠ 0 ∧ 0 < Generated.defaultCache := by decide
 
 /-- REFINEMENT. For every construction and every history of operations, the implementation state
